@@ -6,14 +6,26 @@ equal live bytes after the result (value or error) and the input have been dropp
 `Bytes` may survive (`Bytes::is_unique` of a second handle; a surviving slice also shows as the input
 allocation staying live).  Inputs: for every emitted type, reference encodings of generated values, cut at
 every (quick: sampled) truncation point, and single-byte corruptions that make decoding fail; binary and
-compact; sync and async."""
-import re
-from .. import gengen, genref, genrun
+compact; sync and async.
+
+Model correspondence (proof level): the ownership-instrumented Coq model of the decode templates
+(fam/gen/coq/Own.v, theorems in Properties/C19.v) is run, through extraction (runner op `own`), on every case
+whose decoder is an instance of the plain templates (every async case; sync cases of the builds without
+unknown-field retention) and predicts the outcome and the list of values that are never dropped.  The prediction
+is compared with the measurement in BOTH directions:
+  measured leak, model predicts none       -> a real leak outside the modelled site: VIOLATION with the input
+  measured leak, model predicts one        -> finding F-19a (class list-decode-leak): KNOWN-FINDING
+  no leak measured, model predicts values holding heap / input references -> correspondence broken
+  outcome (ok / err / panic) differs       -> correspondence broken
+Sync cases of keep builds (template with retention, GenKeep.v) are judged by the type-level class as before."""
+import os, re
+from .. import core, gengen, genref, genrun, gencheck
 from ..gencheck import have_property_file, run_check
 
 PROP = 'C19'
 LEVEL = 'proof' if have_property_file(PROP) else 'exploration'
 MEM_RE = re.compile(r'^(ok|err|panic|hang) LIVE (-?\d+) PEAK (\d+) REFS (\d+)$')
+OWN_RE = re.compile(r'^(ok|err|panic)(?: \w+)? LEAK (\d+) HEAP (\d+)$')
 
 
 def owns_heap(sch, ty, seen=None):
@@ -106,12 +118,38 @@ def gen_cases(gb, rng, tier):
     return cases
 
 
+def inline_cap_check():
+    """FastStr's inline capacity is a constant of an external crate that the value-level predicate `heap_val` of Own.v
+    uses: re-read it from the source of the faststr version pinned in /repo/Cargo.lock.  -> (ok, text)"""
+    try:
+        own = open(os.path.join(gencheck.FAM.coq, 'Own.v'), encoding='utf-8').read()
+        mine = int(re.search(r'Definition faststr_inline_cap : nat := (\d+)\.', own).group(1))
+        lock = open(os.path.join(core.REPO, 'Cargo.lock'), encoding='utf-8').read()
+        ver = re.search(r'name = "faststr"\nversion = "([^"]+)"', lock).group(1)
+    except (OSError, AttributeError) as e:
+        return False, 'cannot determine faststr version / model constant: %r' % (e,)
+    import glob
+    srcs = glob.glob(os.path.expanduser('~/.cargo/registry/src/*/faststr-%s/src/lib.rs' % ver))
+    if not srcs:
+        return True, 'faststr %s source not in the cargo registry: INLINE_CAP not re-read (model: %d)' % (ver, mine)
+    m = re.search(r'const INLINE_CAP: usize = (\d+);', open(srcs[0], encoding='utf-8').read())
+    if not m:
+        return False, 'faststr %s: `const INLINE_CAP` not found' % ver
+    if int(m.group(1)) != mine:
+        return False, 'faststr %s INLINE_CAP = %s, Own.v faststr_inline_cap = %d' % (ver, m.group(1), mine)
+    return True, 'faststr %s INLINE_CAP = %d (= Own.v)' % (ver, mine)
+
+
+def plain_template(case):
+    """is the decoder of this case an instance of the plain templates (the ones Own.v models)?"""
+    return case['mode'] != 'sync' or 'keep' not in case['cfg']
+
+
 def evaluate(gb, case, out):
+    """outcomes that are not a returned error (the leak judgement itself is in `judge`, which needs the model)"""
     m = MEM_RE.match(out or '')
     sch = gb.schema
     cls = None
-    if case['mode'] == 'sync' and has_heap_list(sch, case['type']):
-        cls = 'list-decode-leak'
     if not m and case['mode'] != 'sync' and (out or '').startswith('CRASH'):
         # the emitted ASYNC container decoders preallocate from the wire count (Vec::with_capacity(size)); a corrupted
         # count makes the allocator give up and the process abort: finding F-09e of property C09 (not a failed decode
@@ -121,21 +159,54 @@ def evaluate(gb, case, out):
         if genrun.is_arg_swallow(sch, case['cfg'], case['type'], case['mode']):
             cls = 'keep-is-arg-swallow'
         return [('decoder does not return on malformed input: %s' % (out or '')[:100], cls)]
-    kind, live, peak, refs = m.group(1), int(m.group(2)), int(m.group(3)), int(m.group(4))
-    if kind == 'ok':
-        return []           # the corruption still decodes: nothing to check here
+    kind = m.group(1)
     if kind in ('panic', 'hang'):
         if case['mode'] != 'sync' and kind == 'panic':
             return []       # capacity-overflow panic of the async preallocation: F-09e (C09), no returned error to measure
         if genrun.is_arg_swallow(sch, case['cfg'], case['type'], case['mode']):
             cls = 'keep-is-arg-swallow'
         return [('decoder %ss on malformed input' % kind, cls)]
-    bad = []
-    if live != 0:
-        bad.append(('after a failed decode %d bytes stay allocated (error and input dropped)' % live, cls))
-    elif refs != 0:
-        bad.append(('after a failed decode a reference to the input buffer survives', cls))
-    return bad
+    return []
+
+
+def judge(gb, case, out, pred):
+    """-> (failing [(reason, cls)], correspondence problem or None, tag for the distribution).
+    pred: the model's result line for the case (None when the case is not an instance of the plain templates)"""
+    m = MEM_RE.match(out or '')
+    if not m:
+        return [], None, 'no-measurement'
+    kind, live, refs = m.group(1), int(m.group(2)), int(m.group(4))
+    dirty = (live != 0 or refs != 0)
+    what = ('after a failed decode %d bytes stay allocated (error and input dropped)' % live if live != 0
+            else 'after a failed decode a reference to the input buffer survives')
+    pm = OWN_RE.match(pred) if pred is not None else None
+    if pred is not None and not pm:
+        return [], 'model runner: %s' % pred[:100], 'model-bad'
+    if pm is None:
+        # sync decoder of a keep build: type-level class only
+        if kind != 'err' or not dirty:
+            return [], None, 'class-only'
+        cls = 'list-decode-leak' if has_heap_list(gb.schema, case['type']) else None
+        return [(what, cls)], None, 'class-only'
+    mkind, mleak, mheap = pm.group(1), int(pm.group(2)), int(pm.group(3))
+    if kind in ('panic', 'hang'):
+        # async capacity-overflow panics (F-09e) are not modelled; sync panics were reported by `evaluate`
+        return [], None, 'not-compared'
+    if kind != mkind:
+        return [], 'outcome: implementation %s, model %s' % (kind, pred[:40]), 'outcome-mismatch'
+    if kind == 'ok':
+        if mleak:
+            return [], 'model predicts a leak on a successful decode (%s)' % pred, 'model-bad'
+        return [], None, 'ok'
+    if dirty and mleak == 0:
+        # the model accounts for every unsafe site of the inventory and predicts no leak: a real leak elsewhere
+        return [(what + '; the ownership model (fam/gen/coq/Own.v) predicts none for this input', None)], None, 'leak-unpredicted'
+    if dirty:
+        return [(what + ' (predicted: %d element(s) of a sync list decode never dropped)' % mleak, 'list-decode-leak')], None, 'leak-predicted'
+    if mheap:
+        return [], ('no leak measured, the model predicts %d undropped value(s) holding heap memory / input references (%s)'
+                    % (mheap, pred)), 'leak-not-measured'
+    return [], None, ('clean-undropped-plain-data' if mleak else 'clean')
 
 
 def extra(cases, outs):
@@ -152,10 +223,55 @@ def extra(cases, outs):
 
 
 def run(chk, replay=None):
-    return run_check(chk, replay, PROP, gen_cases, evaluate,
+    tags = {}
+    stats = dict(compared=0, mismatches=0)
+
+    def post(gb, cases, outs):
+        # ---- the model's predictions (extracted Own.own_decode_top through the runner, op `own`)
+        runner = gencheck.FAM.runner if os.path.exists(gencheck.FAM.runner) and have_property_file(PROP) else None
+        sel = [i for i, c in enumerate(cases) if plain_template(c)] if runner else []
+        preds = {}
+        if sel:
+            lines = ['own ' + cases[i]['line'].split(' ', 1)[1] for i in sel]
+            mouts = core.run_lines(runner, lines, args=[os.path.join(gb.out_dir, 'schema.txt')])
+            preds = {i: (o or 'CRASH') for i, o in zip(sel, mouts)}
+        failing, corr = [], []
+        okc, txt = inline_cap_check()
+        stats['inline_cap'] = txt
+        if not okc:
+            chk.violation('translator: ' + txt, dict(kind='translator', output=txt), no_input=True)
+        for i, (c, o) in enumerate(zip(cases, outs)):
+            bad, why, tag = judge(gb, c, o, preds.get(i))
+            tags[tag] = tags.get(tag, 0) + 1
+            if i in preds and tag != 'not-compared':
+                stats['compared'] += 1
+            for reason, cls in bad:
+                failing.append((c, reason, cls, o))
+            if why:
+                corr.append((c, o, preds.get(i), why))
+        stats['mismatches'] = len(corr)
+        if corr and not any(cls is None for _, _, cls, _ in failing):
+            c, o, m, why = corr[0]
+            chk.violation('correspondence gen-ownership broken: the ownership model and the emitted code disagree (%d cases: %s) '
+                          'but the property oracle found no failing input' % (len(corr), why),
+                          dict(kind='correspondence', correspondence='ownership model (fam/gen/coq/Own.v, runner op `own`) vs '
+                               'allocator measurement of the code emitted by pilota-build',
+                               case=c, impl_output=(o or '')[:2000], model_output=(m or '')[:2000]), no_input=True)
+        return failing
+
+    def extra_all(cases, outs):
+        d = extra(cases, outs)
+        d['ownership_model'] = dict(tags)
+        d['faststr_inline_cap'] = stats.get('inline_cap')
+        chk.cov['disagreements_checked'] = stats['compared']
+        chk.cov['model_impl_mismatches'] = stats['mismatches']
+        return d
+
+    return run_check(chk, replay, PROP, gen_cases, evaluate, post=post,
                      rule="every emitted struct / union / container typedef of the corpus x 2 (thorough: 8) generated values x reference "
                           "encodings in {binary, compact} (<= 400 bytes quick) x truncation at every offset (quick: 24 sampled offsets for long "
                           "messages) + 4 (16) single-byte corruptions x {sync, async schedules} x builder configs; observation: counting global "
-                          "allocator (live bytes before == after dropping result and input) and Bytes::is_unique of a second input handle; "
+                          "allocator (live bytes before == after dropping result and input) and Bytes::is_unique of a second input handle, "
+                          "compared per case with the prediction of the extracted ownership model (outcome; leak / no leak); "
                           "distinct by SHA-1 of the case line",
-                     extra_dist=extra, model_ops=())
+                     extra_dist=extra_all, model_ops=())
